@@ -204,6 +204,10 @@ func execRun(t *testing.T, sc *Scenario, tape *simrt.Tape, seed, run uint64, tie
 				rc.Failf(sc.Prop+".stuck", "locks:"+lockSites(sim), "the run ended with goroutines waiting for locks of the library that can never be granted:\n%s", sim.Deadlock)
 			}
 			for _, p := range sim.Panics {
+				if strings.Contains(p, simrt.LockStateCopiedMark) {
+					rc.Failf(sc.Prop+".stuck", "lock-copied-while-held", "a goroutine of the library blocks for ever: %s", p)
+					continue
+				}
 				rc.Failf(sc.Prop+".panic", panicClass(p), "%s", p)
 			}
 			// clean up whatever is left so the bubble can end
